@@ -46,6 +46,15 @@ ASSUMPTIONS = [
     "reads outside the extents are observable only in the asan variant; the plain variant sees writes (canaries, sentinel holes)",
     "out-of-range float->integer conversions are undefined in C; tuples needing one are rejected",
     "kernels are called in-process through ctypes; the struct Error is returned by value (libffi)",
+    "error status: only error/no-error is compared (the definitions carry no id/attempt/message); when the definition "
+    "ends in ValueError the kernel's outputs are unspecified: not compared, and given 4096 elements of slack",
+    "a tuple with an injected violation on a specialization with unsigned arrays is dropped when the definition's "
+    "answer depends on whether uint32-uint32 wraps (C) or goes negative (Python): outside the contract and ambiguous",
+    "definitions patched/replaced because the YAML text is wrong or not executable, in/out arguments, scratch outputs "
+    "and the genuine defects of the 1.4.0 snapshot that are suppressed (KNOWN_DEFECTS, each active only while its "
+    "faulty source text is present; VERIF_C13_STRICT=1 reports them) are all listed in coverage.overrides",
+    "the cross-specialisation monitor compares two specialisations only at outputs where their references predict the "
+    "same logical value (no wrap in the narrower integer type, same rounding in the narrower float type)",
 ]
 
 CANARY = 64
@@ -444,8 +453,7 @@ def _poisoned():
                             open_case = None
                     elif line.startswith("R "):
                         open_case = None
-            if open_case is not None:
-                _POISONED.add(open_case)
+            # the last open "C" line is the case being run right now, not a death
     except Exception:
         pass
     return _POISONED
